@@ -342,7 +342,7 @@ def family_of(pool, unexplained):
 
 
 def run(ctx):
-    ok = ctx.lean_stage(["entities"], ["Verif.Props.C05", "Verif.Props.LeafPos", "Verif.Props.Coalesce", "Verif.Props.InlineLoop"])
+    ok = ctx.lean_stage(["entities"], ["Verif.Props.C05", "Verif.Props.LeafPos", "Verif.Props.Coalesce", "Verif.Props.InlineLoop", "Verif.Props.InlineLoop2"])
     _, leaf_fail = ctx.block("leafposlib", "leafpos", __import__("blocks").SRC["leafpos"])      # faithful leaf positions (Verif.Props.LeafPos) vs the real tokens
     for f in leaf_fail:
         d = f["doc"] if isinstance(f, dict) else str(f)
